@@ -139,9 +139,11 @@ FUNC_WRAPPERS = {
 
 
 class SrcDB(object):
-    def __init__(self, repo=REPO, pkg=PKG):
+    def __init__(self, repo=REPO, pkg=PKG, trees=None):
         self.repo = repo
         self.pkg = pkg
+        self.trees = trees      # module name -> already transformed tree
+        self.norm_stats = None
         self.modules = {}
         self.classes = []       # all ClassInfo
         self.funcs = []         # all FuncInfo (incl. methods, nested, lambdas
@@ -168,11 +170,14 @@ class SrcDB(object):
                     parts = parts[:-1]
                 name = '.'.join(parts)
                 src = open(path, encoding='utf-8').read()
-                try:
-                    tree = ast.parse(src, filename=path)
-                except SyntaxError as e:
-                    raise AnalysisError('module does not parse: %s' % e,
-                                        path=rel(path))
+                if self.trees is not None:
+                    tree = self.trees[name]
+                else:
+                    try:
+                        tree = ast.parse(src, filename=path)
+                    except SyntaxError as e:
+                        raise AnalysisError('module does not parse: %s' % e,
+                                            path=rel(path))
                 m = Module(name, path, is_pkg, tree, src)
                 self.modules[name] = m
         for m in self.modules.values():
@@ -633,6 +638,15 @@ def load(repo=REPO):
     global _DB
     if _DB is None or _DB.repo != repo:
         _DB = SrcDB(repo)
+        if os.environ.get('VP_NORMALIZE', '0') == '1':
+            # E0: bring the parsed program to normal form (helpers that are
+            # not known units inlined, stable aliases propagated), then index
+            # the normal form; every engine and rule sees only that.
+            from . import normalize
+            stats = normalize.run(_DB)
+            trees = {n: m.tree for n, m in _DB.modules.items()}
+            _DB = SrcDB(repo, trees=trees)
+            _DB.norm_stats = stats
         st = _DB.stats()
         if st['modules'] < 38 or st['classes'] < 140:
             raise AnalysisError(
